@@ -44,6 +44,9 @@ def check (m : MonSt) (op r : String) (o : Obs) : Option String × MonSt :=
       | none => none),
     -- after Close has returned the ended (current) generation owns nothing
     (if closedNow && openOf o o.gen > 0 && !(op == "close" && r == "blocked") then some "resources of the closed generation still open after Close returned" else none),
+    -- … and neither does a generation that a Restart ended earlier, wound down or not: Close waits for the gatherers
+    -- of every cycle (C09-G12; with C08: no goroutine started by the agent keeps running after Close)
+    (if closedNow && openTotal o > 0 && !(op == "close" && r == "blocked") then some "resources of a superseded generation still open after Close returned (its gatherer is still running)" else none),
     (if closedNow && o.held == 0 && o.pend.isEmpty && openTotal o > 0 then some "resources open after Close with nothing in flight" else none),
     -- a generation that has not gathered yet owns nothing
     (if o.st == some .new && o.held == 0 && !inFlight o o.gen && openOf o o.gen > 0 then
